@@ -292,7 +292,7 @@ DecidePoll(a) ==
 
 DecideEndSession(a) ==
   LET h == a.hint
-      hintOK == h.kind \in {"valid", "expired", "multiaud"} /\ Has(idts, h.id) /\ ~(cfg.dyn /\ a.host = "B")
+      hintOK == h.kind \in {"valid", "expired", "multiaud", "futureiat", "noiat"} /\ Has(idts, h.id) /\ ~(cfg.dyn /\ a.host = "B")
       badHint == h.kind # "none" /\ ~hintOK
       client == IF hintOK THEN idts[h.id].client ELSE a.client
       redirect(target, sub, c) == [NoOut EXCEPT !.class = "redirect", !.status = 302, !.target = target,
@@ -416,14 +416,14 @@ CodeExchangeArgs ==
                        [caller |-> r.client, cred |-> RightCred(r.client), code |-> k, uri |-> r.uri, verifier |-> VerifierFor(r.chall)]
                   ELSE [caller |-> "cw", cred |-> RightCred("cw"), code |-> k, uri |-> "ucw", verifier |-> "none"] IN
   IF Narrow
-  THEN UNION {Deviations(right(k), [caller |-> Callers, cred |-> Creds, uri |-> {"ucw", "ucw2", "ucx", "evil", ""}, verifier |-> Verifiers]) : k \in ks}
+  THEN UNION {Deviations(right(k), [caller |-> Callers, cred |-> Creds, uri |-> {"ucw", "ucw2", "ucx", "evil", "ucnEvil", ""}, verifier |-> Verifiers]) : k \in ks}
   ELSE [caller : {"cw", "cx", "cp", "cz"}, cred : Creds, code : ks, uri : {"ucw", "ucx", "ucp"}, verifier : {"none", "v1"}]
 
 RefreshArgs ==
   LET fs == DOMAIN rts \cup {"f0"}
       right(f) == IF Has(rts, f) THEN [caller |-> rts[f].client, cred |-> RightCred(rts[f].client), rt |-> f, scopes |-> <<>>]
                   ELSE [caller |-> "cw", cred |-> RightCred("cw"), rt |-> f, scopes |-> <<>>]
-      scs == {<<>>, <<"openid">>, <<"openid", "phone">>, <<"phone">>, <<"openid", "offline_access">>} IN
+      scs == {<<>>, <<"openid">>, <<"openid", "phone">>, <<"phone">>, <<"openid", "offline_access">>, <<"offline_access">>, <<"email", "offline_access">>} IN
   IF Narrow THEN UNION {Deviations(right(f), [caller |-> Callers, cred |-> Creds, scopes |-> scs]) : f \in fs}
   ELSE [caller : {"cw", "cx", "cp", "cz"}, cred : Creds, rt : fs, scopes : {<<>>, <<"openid">>, <<"openid", "phone">>}]
 
@@ -444,7 +444,7 @@ DeviceAuthorizeArgs == {[caller |-> cc[1], cred |-> cc[2], scopes |-> s] : cc \i
 PollArgs == {[caller |-> cc[1], cred |-> cc[2], dc |-> d, slow |-> s] : cc \in CallerCreds, d \in DOMAIN devs \cup {"d0"}, s \in BOOLEAN}
 
 EndSessionArgs ==
-  LET hints == {[kind |-> "none", id |-> "none"]} \cup [kind : {"valid", "expired", "multiaud", "wrongkey", "wrongiss", "algnone"}, id : DOMAIN idts] IN
+  LET hints == {[kind |-> "none", id |-> "none"]} \cup [kind : {"valid", "expired", "multiaud", "futureiat", "noiat", "wrongkey", "wrongiss", "algnone"}, id : DOMAIN idts] IN
   [hint : hints, client : {"", "cw", "cx", "cz"}, uri : {"", "plcw", "plcx", "evil"}, state : {"", "ls1"}, host : IF cfg.dyn THEN {"A", "B"} ELSE {"A"}]
 
 RefArgs ==
